@@ -286,6 +286,18 @@ func plainStr(p *Packet, k string) string {
 	return s
 }
 
+// settleLCRequest waits until the legacy service has finished reacting to a request: either it announced responded, or
+// its action event was continued and its listener has finished the callback (an error there leaves no trace but the
+// record staying in state requested).
+func (r *runner) settleLCRequest(dst *Agent, thid string, ev0, c0 int) bool {
+	ok := dst.waitFor(settle, func() bool { return dst.countEventsLocked(thid) > ev0 || dst.continued[thid] > c0 })
+	if ok && dst.countEvents(thid) <= ev0 {
+		dst.lcSettled()
+	}
+
+	return ok
+}
+
 // deliverCore hands one packet to its destination and waits until the agent has finished reacting to it.
 func (r *runner) deliverCore(p *Packet) {
 	w := r.w
@@ -299,6 +311,7 @@ func (r *runner) deliverCore(p *Packet) {
 	id := plainStr(p, "@id")
 	sig0 := signals.count("m:" + id)
 	ev0 := dst.countEvents(p.Thread)
+	c0 := dst.contCount(p.Thread)
 
 	w.net.Deliver(p)
 
@@ -309,8 +322,10 @@ func (r *runner) deliverCore(p *Packet) {
 	ok := true
 
 	switch p.Type {
-	case dxRequest, lcRequest:
+	case dxRequest:
 		ok = dst.waitFor(settle, func() bool { return dst.countEventsLocked(p.Thread) > ev0 })
+	case lcRequest:
+		ok = r.settleLCRequest(dst, p.Thread, ev0, c0)
 	case dxResponse, dxComplete, lcResponse, lcAck:
 		ok = signals.waitAbove("m:"+id, sig0, settle)
 	}
@@ -334,6 +349,7 @@ func (r *runner) deliver(p *Packet) {
 	id := plainStr(p, "@id")
 	sig0 := signals.count("m:" + id)
 	ev0 := dst.countEvents(p.Thread)
+	c0 := dst.contCount(p.Thread)
 
 	w.net.Deliver(p)
 
@@ -345,8 +361,10 @@ func (r *runner) deliver(p *Packet) {
 		ok := true
 
 		switch p.Type {
-		case dxRequest, lcRequest:
+		case dxRequest:
 			ok = dst.waitFor(settle, func() bool { return dst.countEventsLocked(p.Thread) > ev0 })
+		case lcRequest:
+			ok = r.settleLCRequest(dst, p.Thread, ev0, c0)
 		case dxResponse, dxComplete, lcResponse, lcAck:
 			ok = signals.waitAbove("m:"+id, sig0, settle)
 		}
@@ -540,7 +558,16 @@ func (r *runner) drain(local []func()) {
 		}
 
 		if r.spec.Restart == "random" && r.spec.Mode != "sync" && r.rng.Intn(6) == 0 {
-			r.restart([]*Agent{r.w.A, r.w.B}[r.rng.Intn(2)])
+			// one of the two honest agents, or (one time in five) both of them at the same point of the schedule
+			switch r.rng.Intn(5) {
+			case 0:
+				r.restart(r.w.A)
+				r.restart(r.w.B)
+			case 1, 2:
+				r.restart(r.w.A)
+			default:
+				r.restart(r.w.B)
+			}
 		}
 
 		k := r.rng.Intn(n + len(local))
@@ -1560,13 +1587,10 @@ func (r *runner) attack(at Attack) error {
 			return fmt.Sprintf("ICreateInv %d %d", w.inv(linv.ID), w.key(linv.RecipientKeys[0]))
 		}, false, "")
 
-		pd, e := did.ParseDocument([]byte(rename(victimDID)))
-		if e != nil {
-			return e
-		}
-
-		legacy, e := pd.ToLegacyRawDoc()
-		if e != nil {
+		// the document as ordinary JSON (the service reads both renderings; the legacy raw rendering of a document made
+		// for DID Exchange is refused by its decoder before anything happens)
+		var legacy interface{}
+		if e := json.Unmarshal([]byte(rename(victimDID)), &legacy); e != nil {
 			return e
 		}
 
@@ -1574,7 +1598,7 @@ func (r *runner) attack(at Attack) error {
 			"~thread": map[string]interface{}{"pthid": linv.ID}, "connection": map[string]interface{}{"DID": named, "DIDDoc": legacy}}
 
 		return w.M.ctx.OutboundDispatcher().Send(m, sender, &service.Destination{
-			RecipientKeys: linv.RecipientKeys, ServiceEndpoint: model.NewDIDCommV1Endpoint(x.Endpoint)})
+			RecipientKeys: asDIDKeys(linv.RecipientKeys), ServiceEndpoint: model.NewDIDCommV1Endpoint(x.Endpoint)})
 	case "req-nodoc":
 		return send(request(uuid.New().String(), inv.ID, victimDID, ""), inv)
 	case "req-keysteal": // a new DID whose document lists bob's key next to mallory's; then the exchange is completed
@@ -1654,6 +1678,116 @@ func (r *runner) attack(at Attack) error {
 		}
 
 		th := uuid.New().String()
+
+		if e := send(request(th, inv.ID, fakeDID, string(docb)), inv); e != nil {
+			return e
+		}
+
+		r.drain(nil)
+
+		return send(map[string]interface{}{"@type": dxComplete, "@id": uuid.New().String(),
+			"~thread": map[string]interface{}{"thid": th, "pthid": inv.ID}}, inv)
+	case "req-blocks-indy-first", "req-blocks-other-first", "req-blocks-v2-first", "req-blocks-v2-noka", "req-blocks-two-v1",
+		"req-blocks-indy-only", "req-blocks-plain-v1", "lc-req-blocks-v1", "lc-req-blocks-v2-first", "lc-req-blocks-indy-v1":
+		// mallory's own exchange (a new DID, her own keys) with a document of several service blocks: which block the
+		// destination is made of, and what the type of the FIRST block makes the inviter do (it builds its own document
+		// for that type: an unknown type is refused before anything is created, an IndyAgent document is created and
+		// then left behind by DID Exchange, a did-communication document of the legacy service cannot be sent from);
+		// then the exchange is completed
+		var dm map[string]interface{}
+		if e := json.Unmarshal([]byte(rename(fakeDID)), &dm); e != nil {
+			return e
+		}
+
+		svcs, _ := dm["service"].([]interface{})
+		if len(svcs) == 0 {
+			return fmt.Errorf("document without service")
+		}
+
+		first, _ := svcs[0].(map[string]interface{})
+		rk, _ := first["recipientKeys"].([]interface{})
+
+		if len(rk) == 0 {
+			return fmt.Errorf("document without recipient keys")
+		}
+
+		own, _ := rk[0].(string)
+		ownRaw := own
+
+		if ck := canonKey(own); strings.HasPrefix(ck, "raw:") && strings.HasPrefix(own, "did:key:") {
+			var rawk []byte
+
+			fmt.Sscanf(ck[4:], "%x", &rawk)
+			ownRaw = base58.Encode(rawk)
+		}
+
+		block := func(typ string, ep interface{}, keys ...string) map[string]interface{} {
+			return map[string]interface{}{"id": fakeDID + "#b-" + typ, "type": typ, "priority": 3, "recipientKeys": keys,
+				"serviceEndpoint": ep}
+		}
+		v2ep := []interface{}{map[string]interface{}{"uri": w.M.Endpoint, "accept": []string{"didcomm/v2"}}}
+
+		switch at.Kind {
+		case "req-blocks-indy-first", "lc-req-blocks-indy-v1":
+			svcs = append([]interface{}{block("IndyAgent", w.M.Endpoint, ownRaw)}, svcs...)
+		case "req-blocks-other-first":
+			svcs = append([]interface{}{block("LinkedDomains", "https://example.com")}, svcs...)
+		case "req-blocks-v2-first", "lc-req-blocks-v2-first":
+			svcs = append([]interface{}{block("DIDCommMessaging", v2ep)}, svcs...)
+		case "req-blocks-v2-noka":
+			svcs = append(svcs, block("DIDCommMessaging", v2ep))
+			delete(dm, "keyAgreement")
+		case "req-blocks-two-v1": // the second did-communication block has the higher priority and points elsewhere
+			b := block("did-communication", "http://elsewhere.invalid", own)
+			b["priority"] = 0
+			svcs = append(svcs, b)
+		case "req-blocks-indy-only":
+			svcs = []interface{}{block("IndyAgent", w.M.Endpoint, ownRaw)}
+		case "req-blocks-plain-v1": // a raw key in a did-communication block, an IndyAgent block behind it
+			first["recipientKeys"] = []string{ownRaw}
+			svcs = append(svcs, block("IndyAgent", w.M.Endpoint, ownRaw))
+		case "lc-req-blocks-v1":
+		}
+
+		dm["service"] = svcs
+
+		docb, e := json.Marshal(dm)
+		if e != nil {
+			return e
+		}
+
+		th := uuid.New().String()
+
+		if strings.HasPrefix(at.Kind, "lc-") {
+			pre := r.pre(x)
+
+			linv, e := x.lc.CreateInvitation("open-legacy")
+			if e != nil {
+				return e
+			}
+
+			r.post(x, pre, func(int, string) string {
+				return fmt.Sprintf("ICreateInv %d %d", w.inv(linv.ID), w.key(linv.RecipientKeys[0]))
+			}, false, "")
+
+			var legacy interface{}
+			if e := json.Unmarshal(docb, &legacy); e != nil {
+				return e
+			}
+
+			ldest := &service.Destination{RecipientKeys: asDIDKeys(linv.RecipientKeys), ServiceEndpoint: model.NewDIDCommV1Endpoint(x.Endpoint)}
+			m := map[string]interface{}{"@type": lcRequest, "@id": th, "label": "mallory",
+				"~thread": map[string]interface{}{"pthid": linv.ID}, "connection": map[string]interface{}{"DID": fakeDID, "DIDDoc": legacy}}
+
+			if e := w.M.ctx.OutboundDispatcher().Send(m, sender, ldest); e != nil {
+				return e
+			}
+
+			r.drain(nil)
+
+			return w.M.ctx.OutboundDispatcher().Send(map[string]interface{}{"@type": lcAck, "@id": uuid.New().String(), "status": "OK",
+				"~thread": map[string]interface{}{"thid": th}}, sender, ldest)
+		}
 
 		if e := send(request(th, inv.ID, fakeDID, string(docb)), inv); e != nil {
 			return e
@@ -2114,6 +2248,23 @@ func (r *runner) capturedDoc(didv string) string {
 	return ""
 }
 
+// asDIDKeys writes raw base58 Ed25519 keys as did:key (what the outbound dispatcher's packers want).
+func asDIDKeys(keys []string) []string {
+	out := make([]string, len(keys))
+
+	for i, k := range keys {
+		out[i] = k
+
+		if !strings.HasPrefix(k, "did:") {
+			if raw := base58.Decode(k); len(raw) == 32 {
+				out[i], _ = fingerprint.CreateDIDKey(raw)
+			}
+		}
+	}
+
+	return out
+}
+
 func base58ish(r *hx.Rng, n int) string {
 	const al = "123456789ABCDEFGHJKLMNPQRSTUVWXYZabcdefghijkmnopqrstuvwxyz"
 	b := make([]byte, n)
@@ -2130,6 +2281,8 @@ var attackKinds = []string{"req-repoint", "req-repoint-badpthid", "req-repoint-k
 	"req-repoint-relationship", "req-repoint-svcid", "req-docid-mismatch",
 	"req-docid-fresh", "lc-req-repoint", "req-id-remap", "req-id-remap-known", "resp-case-remap", "resp-case-remap-wrapper", "complete-case-remap", "ping-from-spoof", "rotate-takeover", "rotate-takeover-relkid", "req-nodoc", "init-keysteal", "req-related-thread", "req-keysteal", "req-keysteal-notation", "req-keysteal-indy", "req-keysteal-indy-didkey", "req-keysteal-second-block",
 	"req-keysteal-v2-block", "init-repoint",
+	"req-blocks-indy-first", "req-blocks-other-first", "req-blocks-v2-first", "req-blocks-v2-noka", "req-blocks-two-v1",
+	"req-blocks-indy-only", "req-blocks-plain-v1", "lc-req-blocks-v1", "lc-req-blocks-v2-first", "lc-req-blocks-indy-v1",
 	"complete-replay", "req-same-thread", "resp-forge", "ping-unknown", "owner-reuse"}
 
 func main() {
@@ -2231,6 +2384,11 @@ func main() {
 			for _, target := range []string{"alice", "bob"} {
 				// the additional forms of the legacy invitation key differ on the invitee's side: quick runs attack that side
 				if args.Tier == "quick" && strings.HasPrefix(st, "legacy-") && target == "alice" {
+					continue
+				}
+
+				// the multi-block documents are mallory's own: what they do does not depend on how the victims connected
+				if args.Tier == "quick" && strings.Contains(ak, "-blocks-") && st != "dx" && st != "legacy" {
 					continue
 				}
 
